@@ -35,21 +35,24 @@ def monitor(case, il, sl):
             return ("%s -> %s" % (o, l), "c17-crash")
         if t[0] == "start":
             interval = int(t[1])
-            lo_ops.append("start %d %s" % (interval, w[1])); hi_ops.append("start %d %s" % (interval, w[2]))
+            # clock readings are truncated to whole ms: a reading r stands for [r, r+1).  The verdict of
+            # a fire depends on (fire time - last activity time) only, so the run with the LEAST silence
+            # puts activities at the top of their brackets and fires at the bottom, and vice versa.
+            lo_ops.append("start %d %d" % (interval, int(w[2]) + 1)); hi_ops.append("start %d %s" % (interval, w[1]))
             last_act = (int(w[1]), int(w[2]))
         elif t[0] == "act":
-            lo_ops.append("act " + w[1]); hi_ops.append("act " + w[2])
+            lo_ops.append("act %d" % (int(w[2]) + 1)); hi_ops.append("act " + w[1])
             last_act = (int(w[1]), int(w[2]))
         elif t[0] == "fire":
-            lo_ops.append("fire " + w[1]); hi_ops.append("fire " + w[2])
+            lo_ops.append("fire " + w[1]); hi_ops.append("fire %d" % (int(w[2]) + 1))
             idx.append((k, len(lo_ops) - 1, int(w[1]), int(w[2]), w[3], last_act))
         else:
             lo_ops.append("noop"); hi_ops.append("noop")
     # the property itself, on the measured brackets (from the text of C17): an expiry needs
     # `interval - 5 ms` of silence; that much silence must give an expiry
     for k, j, flo, fhi, verdict, act in idx:
-        silence_max = fhi - act[0]
-        silence_min = flo - act[1]
+        silence_max = fhi + 1 - act[0]
+        silence_min = flo - (act[1] + 1)
         if verdict == "expired" and silence_max < interval - 5:
             return ("fire at [%d,%d] ms reported Expired after at most %d ms of silence (interval %d ms)" % (flo, fhi, silence_max, interval), "c17-early")
         if verdict == "running" and silence_min >= interval - 5 + 1:
